@@ -121,14 +121,13 @@ theorem emit_sets_uploaded (evs : List REv) : ∀ (imgs : Nat → KBuf) (p : Pla
 
 theorem step_DI (w : World) (op : WOp) (h : ∀ id, DataInv w id) : ∀ id, DataInv (w.step op) id := by
   rw [step_std]
-  have hr : kittyResizeBody = stdResizeBody := by decide
   cases op with
   | resize i ok =>
     cases ok
     · exact h
     · intro id
-      show DI (update w.imgs i (resizeWith kittyResizeBody (w.imgs i) w.serial)) w.term (update w.latest i (some w.serial)) id
-      rw [hr, resizeWith_std]
+      show DI (update w.imgs i (resizeWith stdResizeBody (w.imgs i) w.serial)) w.term (update w.latest i (some w.serial)) id
+      rw [resizeWith_std]
       by_cases hid : id = i
       · subst hid
         right
